@@ -295,6 +295,19 @@ func (g *gen) scanAssignments() map[types.Object]bool {
 	for _, p := range g.l.order {
 		mark := func(e ast.Expr) {
 			e = unparen(e)
+			// whole-struct assignment (*t = T{...}, s.f = T{...}): every field of the struct may change
+			through := false
+			switch e.(type) {
+			case *ast.StarExpr, *ast.SelectorExpr, *ast.IndexExpr:
+				through = true
+			}
+			if tv, ok := p.info.Types[e]; ok && tv.Type != nil && through {
+				if st, ok := tv.Type.Underlying().(*types.Struct); ok {
+					for i := 0; i < st.NumFields(); i++ {
+						bad[st.Field(i)] = true
+					}
+				}
+			}
 			switch x := e.(type) {
 			case *ast.Ident:
 				if o := p.info.Uses[x]; o != nil {
